@@ -23,8 +23,8 @@
     no triggers, views, foreign keys, spatial/disk-backed indexes (a table has < 100 000 rows);
     security disabled (PrivilegeChecker returns Ok, the default of [Database::new]).
     INSERT is [INSERT INTO t VALUES (..),(..)] with integer literals and no column list, under the
-    stated assumption that the rows do not collide with PRIMARY KEY / UNIQUE table constraints and
-    satisfy the CHECK constraints (the harness inserts fresh values); DELETE is
+    stated assumption that the rows do not collide with PRIMARY KEY / UNIQUE table constraints (the
+    harness inserts fresh values; CHECK constraints are [col >= 0] over non-negative values); DELETE is
     [DELETE FROM t [WHERE c = literal]].
 
     Rust panics are explicit results ([RPanic]); the state returned with a panic is unspecified (the
@@ -251,7 +251,7 @@ Inductive result :=
 | ROk (n : Z)        (* DDL: 0; DML: affected rows *)
 | RErr
 | RPanic
-| RNondet            (* outcome depends on HashMap iteration order (Err or Panic) *)
+| RNondet            (* outcome depends on HashMap iteration order (which entry a scan finds first; Err or Panic) *)
 | RUnmodelled.
 
 (* ------------------------------------------------------------------------------------------ *)
@@ -854,6 +854,12 @@ Definition phase5_err (s : state) (tn : name) (csc : tschema) : bool :=
                     name_eqb (upper (si_table x)) (upper tn) && si_unique x && negb (all_cols_found csc (si_cols x)))
           (s_sidx s).
 
+(** phase 4 of RowValidator: every CHECK constraint of the CATALOG schema is evaluated on the new row;
+    the harness's constraints are [col >= 0] over non-negative values, so the only way to fail is a
+    column the schema cannot resolve (ADD CONSTRAINT .. CHECK does not validate its columns) *)
+Definition checks_err (csc : tschema) : bool :=
+  existsb (fun p => negb (is_some (get_column_index csc (snd p)))) (ts_checks csc).
+
 (** insert/execution.rs + Database::insert_row / insert_rows_batch *)
 Definition exec_insert (s : state) (tn : name) (zrows : list (list Z)) : state * result :=
   let rows : list row := map (map (fun z => Some z)) zrows in
@@ -864,6 +870,7 @@ Definition exec_insert (s : state) (tn : name) (zrows : list (list Z)) : state *
     | None => (s, RErr)
     | Some csc =>
         if negb (forallb (fun r => Nat.eqb (length r) (length (ts_cols csc))) rows) then (s, RErr)
+        else if checks_err csc then (s, RErr)
         else if phase5_err s tn csc then (s, RErr)
         else match ops_find_key s tn with
              | None => (s, RErr)
@@ -889,8 +896,9 @@ Definition exec_insert (s : state) (tn : name) (zrows : list (list Z)) : state *
     end
   end.
 
-(** the rows a [WHERE c = v] scan selects: the column index comes from the CATALOG schema, the value
-    from the stored row (a short row makes the predicate an error = not selected) *)
+(** the rows a [WHERE c = v] scan selects (delete/executor.rs collect_rows_with_scan, as of 6c2d8434):
+    the column index comes from the CATALOG schema, the value from the stored row; a row whose
+    predicate cannot be evaluated (unknown column, short row) is kept *)
 Definition row_matches (csc : tschema) (c : name) (v : Z) (r : row) : bool :=
   match get_column_index csc c with
   | None => false
@@ -927,26 +935,6 @@ Definition pk_probe_panics (csc : tschema) (gone : list row) : bool :=
   | None => false
   end.
 
-(** delete/executor.rs collect_rows_with_scan: [evaluator.eval(where_expr, row)?] -- an evaluation error
-    on any row (the WHERE column is unknown to the CATALOG schema, or its catalog position lies beyond
-    the stored row) fails the statement before anything is deleted; the primary-key fast path does
-    not evaluate the predicate *)
-Definition scan_fails (csc ssc : tschema) (w : option (name * Z)) (rows : list row) : bool :=
-  match w with
-  | None => false
-  | Some (c, _) =>
-      let fast :=
-        match pk_indices csc, get_column_index csc c with
-        | Some [p], Some ci => Nat.eqb p ci
-        | _, _ => false
-        end in
-      if fast && is_some (ts_pk ssc) then false
-      else match get_column_index csc c with
-           | None => negb (Nat.eqb (length rows) 0)
-           | Some i => existsb (fun r => negb (is_some (nth_error r i))) rows
-           end
-  end.
-
 (** delete/executor.rs *)
 Definition exec_delete (s : state) (tn : name) (w : option (name * Z)) : state * result :=
   match cat_get_table s tn with
@@ -981,8 +969,7 @@ Definition exec_delete (s : state) (tn : name) (w : option (name * Z)) : state *
                 end in
               let rows' := filter_idx keep 0 rows in
               let gone := filter_idx (fun i r => negb (keep i r)) 0 rows in
-              if scan_fails csc (t_schema tb) w rows then (s, RErr)
-              else if is_some w && pk_probe_panics csc gone then (s, RPanic)
+              if is_some w && pk_probe_panics csc gone then (s, RPanic)
               else
               let s1 := set_table s k (mktab (t_schema tb) rows') in
               match db_rebuild_indexes s1 tn with
